@@ -15,15 +15,15 @@ RULE = ("seeded pairs of same-dtype arrays (int8..uint64 incl. values near the t
         "equal, all distinct, flags with ties; signature = (function, dtype, size classes, match class, presorted, "
         "repeats in second, probe outside range); non-trivial when either array has more than one element")
 TRUSTED = ["python dict / collections.Counter", "numpy element comparison and tolist()"]
-ASSUMPTIONS = ["both arrays have the same dtype; no NaN; no empty input",
+ASSUMPTIONS = ["both arrays have the same dtype, or (family match-mixed) the same kind and signedness with different widths (U2/U5, S3/S8, i2/i8, u1/u8, f4/f8) in either direction; signed and unsigned are not mixed; no NaN; no empty input",
                "presorted=True is only passed with a sorted first array"]
 REQUIRED = {"quick": {"C06.match": 2000, "C06.unique": 500, "C06.rem_dup": 500},
             "thorough": {"C06.match": 50000, "C06.unique": 12000, "C06.rem_dup": 12000}}
-FAMS = ["match-int", "match-float", "match-str", "match-scalar", "match-repeat1", "unique", "rem_dup"]
+FAMS = ["match-int", "match-float", "match-str", "match-scalar", "match-repeat1", "unique", "rem_dup", "match-mixed"]
 
 
 def cases(seed, tier):
-    n = 3500 if tier == "quick" else 84000
+    n = 4000 if tier == "quick" else 96000
     rng = np.random.default_rng([seed, 6])
     for i in range(n):
         yield {"family": FAMS[i % len(FAMS)], "sub": int(rng.integers(0, 2**31))}
@@ -240,6 +240,35 @@ def run_case(case):
         a1 = rng.choice(pool, size=min(n1, pool.size), replace=False)
         out = np.array(["~~~~~~~~", "", "zzzz"], dtype=kind + "8")
         a2 = _second(rng, a1, pool, n2, [v for v in out.tolist() if v not in set(a1.tolist())] if rng.random() < .7 else [])
+    elif fam == "match-mixed":
+        # same kind, different widths, either direction: values of the wider array that would collide with the
+        # narrower one after truncation / wrap-around / rounding are deliberately present
+        mode = int(rng.integers(0, 4))
+        n1 = min(n1, 60)
+        if mode == 0:
+            kind = "U" if rng.random() < .5 else "S"
+            alphabet = list("abcde")
+            short = sorted(set("".join(rng.choice(alphabet, size=int(rng.integers(1, 3)))) for _ in range(3 * n1 + 4)))
+            longer = [w + "".join(rng.choice(alphabet, size=int(rng.integers(1, 4)))) for w in short]
+            a1 = rng.choice(np.array(short, dtype=kind + "2"), size=min(n1, len(short)), replace=False)
+            a2 = rng.choice(np.array(short + longer + ["zz", ""], dtype=kind + "5"), size=n2)
+        elif mode in (1, 2):
+            narrow, wide = [("i2", "i8"), ("i4", "i8"), ("u1", "u8"), ("u2", "u4"), ("i1", "i4")][int(rng.integers(0, 5))]
+            info = np.iinfo(narrow)
+            a1 = rng.choice(np.arange(max(info.min, -300), min(info.max, 300) + 1), size=min(n1, 100), replace=False).astype(narrow)
+            span = int(info.max) - int(info.min) + 1
+            wrapped = a1.astype(wide)[: max(1, a1.size // 2)] + span * rng.integers(1, 4, size=max(1, a1.size // 2)).astype(wide)
+            a2 = rng.choice(np.concatenate([a1.astype(wide), wrapped, np.array([info.max + 1 if info.max < 2**62 else 7], dtype=wide)]), size=n2)
+        else:
+            a1 = np.unique(np.round(rng.normal(size=n1), 2).astype("f4"))
+            rng.shuffle(a1)
+            near = a1.astype("f8") * (1 + 2.0 ** -30)            # rounds to the same float32
+            dec = np.round(a1.astype("f8"), 2)                    # the decimal the float32 came from
+            a2 = rng.choice(np.concatenate([a1.astype("f8"), near, dec]), size=n2)
+        if rng.random() < .5:
+            # wider array first: it must hold distinct values
+            a1, a2 = np.unique(a2), rng.choice(a1, size=n2)
+            rng.shuffle(a1)
     if fam.startswith("match"):
         if fam == "match-repeat1" and a1.size >= 1:
             if rng.random() < .5:    # one single repeat, at the very end of the array
@@ -259,6 +288,9 @@ def run_case(case):
                 probe.attempt(nu.match, a1[0].item() if a1.dtype.kind != "S" else a1[0], a2)
             return
         probe.attempt(nu.match, a1, a2)
+        if fam == "match-mixed":
+            probe.attempt(nu.match, np.sort(a1), a2, presorted=True)
+            return
         if fam != "match-repeat1":
             s1 = np.sort(a1)
             probe.attempt(nu.match, s1, a2, presorted=True)
